@@ -203,6 +203,7 @@ fn replay_doc(prop: &str, doc: &Value) -> Option<String> {
         "trace" => props_eval::replay_trace(&serde_json::from_value(doc["case"].clone()).unwrap(), replay_bin(), tmp_dir()),
         "init" => props_unit2::replay_init(&serde_json::from_value(doc["case"].clone()).unwrap()),
         "invalid" => props_unit2::replay_invalid(&serde_json::from_value(doc["case"].clone()).unwrap()),
+        "classids" => props_unit2::replay_class_ids(&serde_json::from_value(doc["case"].clone()).unwrap()),
         "tree" => props_unit2::replay_tree(&serde_json::from_value(doc["case"].clone()).unwrap()),
         "wrap" => props_unit2::replay_wrap(&serde_json::from_value(doc["case"].clone()).unwrap()),
         "row" => props_unit::replay_row(&serde_json::from_value(doc["case"].clone()).unwrap()),
